@@ -114,6 +114,11 @@ def _tail(v, n):
     return out
 
 
+def _ids(v, n):
+    items = v[:n] if type(v) is list else v.segs[:n]
+    return [id(x) for x in items]
+
+
 def _exists(gen, cond):
     """EXISTS i in the segment with cond(i) -- decided by a (global) case split"""
     n = seq_len(Seq([Gen(gen.base, z3.And(gen.guard, cond), gen.elem)]))
@@ -139,10 +144,15 @@ def _generic(gen, body, carried):
         for name, cell, v, n0 in lists:
             _truncate(v, n0)
 
+    prefix = {name: _ids(v, n0) for name, cell, v, n0 in lists}
+
     def run():
         reset()
         r = body(gen.elem)
         after = {name: _get(cell) for name, cell, v in snap if name in carried}
+        for name, cell, v, n0 in lists:
+            if _length(v) < n0 or _ids(v, n0) != prefix[name]:
+                raise Unsupported(f"loop body removes or replaces elements of the list `{name}` it closes over")
         emits = {name: _tail(v, n0) for name, cell, v, n0 in lists}
         return (r, after, emits)
 
